@@ -17,7 +17,7 @@ namespace sim {
 static Net g_net;
 Net &net() { return g_net; }
 void Net::reset() {
-    for (auto c : conns) delete c; conns.clear(); open.clear(); resolves.clear(); nextFd = 1000; syscalls = 0; budget = 1000000; now = 1500000000;
+    for (auto c : conns) delete c; conns.clear(); open.clear(); resolves.clear(); nextFd = 1000; syscalls = 0; budget = 1000000; now = 1500000000; refusedReadable = true;
     onResolve = nullptr; onConnect = nullptr; onClientData = nullptr; recvChunk = nullptr; sendChunk = nullptr; injectEintr = nullptr; onBlockingRecvWait = nullptr;
     eintrInjected = wouldBlockRecv = wouldBlockSend = partialSends = shortRecvs = 0;
 }
@@ -76,7 +76,7 @@ int __wrap_poll(struct pollfd *fds, nfds_t n, int timeout) {
     bool anySim = false; for (nfds_t i = 0; i < n; i++) if (g_net.byFd(fds[i].fd)) anySim = true; if (!anySim) return __real_poll(fds, n, timeout);
     tick(); int ready = 0;
     for (nfds_t i = 0; i < n; i++) { Conn *c = g_net.byFd(fds[i].fd); fds[i].revents = 0; if (!c) continue; short ev = 0;
-        if (c->state == CS_REFUSED) ev |= POLLHUP | POLLERR | (fds[i].events & POLLOUT);
+        if (c->state == CS_REFUSED) ev |= POLLHUP | POLLERR | (fds[i].events & (g_net.refusedReadable ? (POLLOUT | POLLIN) : POLLOUT));
         else if (c->state == CS_ESTABLISHED) {
             if (c->peerReset) ev |= POLLERR | POLLHUP | (fds[i].events & POLLIN);
             else { if ((fds[i].events & POLLIN) && (c->avail() > 0 || c->peerClosed)) ev |= POLLIN;
